@@ -68,6 +68,7 @@ func ctxConstants() []*Opnd {
 			mkCoef(false, mustInt(strings.Repeat("9", 29)), -29, 29, 0),                        // 11 1-1e-29
 			mkInt64(-1, 0, 1, 0),       // 12 -1
 			mkInt64(10017225, 0, 9, 0), // 13 3165²: the root is an exact tie at 3 digits
+			mkWords(false, []uint64{0, 3, 0, 3 * (BW / 10)}, 1, 0, ToNearestAway),                      // 14 3.000…03 in a 4-word mantissa with a trailing zero word: ÷(−1.5) = −2.000…02
 		}
 	}
 	return ctxConsts
@@ -95,6 +96,7 @@ func ctxOps() []cop {
 				ops = append(ops, cop{name: fmt.Sprintf("z%d=%s(%s)", r, opNames[op], cname(x)), recv: r, kind: ckArith, op: op, srcs: []int{x}})
 			}
 		}
+		ops = append(ops, cop{name: fmt.Sprintf("z%d=Quo(%s,%s)", r, cname(14), cname(1)), recv: r, kind: ckArith, op: opQuo, srcs: []int{14, 1}})
 		ops = append(ops, cop{name: fmt.Sprintf("z%d=Add(nil,1.23456)", r), recv: r, kind: ckArith, op: opAdd, srcs: []int{5, 5}, nilArg: true})
 		if r == 0 {
 			for _, op := range []int{opSub, opMul, opQuo} {
@@ -119,7 +121,7 @@ func cname(i int) string {
 	if i < 0 {
 		return "other"
 	}
-	return []string{"-Inf", "-1.5", "-0", "+0", "2.25", "1.23456", "1e-3", "+Inf", "long40", "1.225(0×35)1", "1+1e-29", "1-1e-29", "-1", "3165²"}[i]
+	return []string{"-Inf", "-1.5", "-0", "+0", "2.25", "1.23456", "1e-3", "+Inf", "long40", "1.225(0×35)1", "1+1e-29", "1-1e-29", "-1", "3165²", "3.0(×37)3[4 words]"}[i]
 }
 
 func newCState() *cstate {
@@ -568,6 +570,15 @@ func ctxLayers(tier string) []Layer {
 						exp := ModelMul(a.V, b.V, uint32(want), m)
 						if msg := judgeFull(Observe(z), pv, false, exp, true); msg != "" {
 							c.Fail(key+" Mul", msg)
+						}
+						// a product at the very bottom of the exponent range (representable: must not be flushed)
+						lo := mkInt64(5, 0, 3, 0)
+						lo.Exp, lo.V.E10 = MinExp, MinExp-DW
+						half := mkInt64(5, -1, 3, 0)
+						z3 := new(Dec)
+						pv, _ = protect(func() { cx.Mul(z3, lo.Build(), half.Build()) })
+						if msg := judgeFull(Observe(z3), pv, false, ModelMul(lo.V, half.V, uint32(want), m), true); msg != "" {
+							c.Fail(key+" Mul at MinExp", msg)
 						}
 						z2 := buildPre(preLonger, 3, ToZero)
 						pv, _ = protect(func() { cx.Add(z2, a.Build(), b.Build()) })
